@@ -814,7 +814,7 @@ pub fn ref_multipart_decode(body: &[u8], boundary: &str) -> Result<RefDecoded, S
 }
 
 /// The boundary parameter of a `multipart/form-data` Content-Type field value.
-fn announced_boundary(v: &[u8]) -> Result<String, String> {
+pub fn announced_boundary(v: &[u8]) -> Result<String, String> {
     let s = std::str::from_utf8(v).map_err(|_| format!("Content-Type is not UTF-8: \"{}\"", esc(v)))?;
     let (mt, params) = split_params(s)?;
     if !mt.eq_ignore_ascii_case("multipart/form-data") {
